@@ -280,6 +280,138 @@ def run_traversal(chk, F):
            key='E2|rec_for_each_simplex|direction')
 
 
+CACHE_READERS = {
+    'filtration_simplex_range': 'returns the cache after maybe_initialize_filtration()',
+    'simplex': 'documented precondition: "the filtration must be initialized"',
+}
+
+
+def run_cache_readers(chk, F):
+    """who may read the cache: filtration_vect_ is an optional, possibly partial ordering of the simplices (built
+    with an ignorer, a custom order, or before values were changed by assign_filtration). The complex is a function of
+    the tree alone, so no function that changes or queries the complex may look into the cache: outside the cache's own
+    interface (initialisation, the range accessor, `simplex(key)`), the member is only cleared, moved or assigned as
+    a whole."""
+    import re
+    fns = [f for f in F.functions if f.get('unit') == 'st_tbb' and f.get('clsname') == 'Simplex_tree' and
+           f['file'].endswith('Simplex_tree.h') and f.get('body') is not None and f['inst'] in (0, 2)]
+    n = 0
+    for f in fns:
+        uses = []
+        roots = [f['body']] + [i.get('init') for i in (f.get('inits') or []) if i.get('init') is not None]
+        for r in roots:
+            for x in ir.walk(r):
+                if x.get('k') in ir.MEMBER_KINDS and x.get('n') == 'filtration_vect_':
+                    uses.append((r, x))
+        if not uses:
+            continue
+        n += 1
+        if f['name'] in CACHE_READERS or f['name'] in ('initialize_filtration', 'maybe_initialize_filtration',
+                                                       'clear_filtration'):
+            continue
+        bad = None
+        for r, x in uses:
+            par = ir.parents(r)
+            up = par.get(id(x))
+            while up is not None and up.get('k') in ir.CAST_KINDS + ('ParenExpr',):
+                up = par.get(id(up))
+            ok = False
+            if up is not None and up.get('k') in ir.MEMBER_KINDS and up.get('n') in ('clear', 'swap', 'shrink_to_fit'):
+                ok = True          # filtration_vect_.clear() / .swap(other.filtration_vect_)
+            if up is not None and up.get('k') in ('BinaryOperator', 'CXXOperatorCallExpr') and up.get('op') == '=':
+                ok = True          # whole-object assignment (copy / move)
+            if up is not None and ir.is_call(up) and ir.call_name(up) in ('move', 'exchange', 'swap'):
+                ok = True
+            if r is not f['body']:
+                ok = True          # member initialiser of a constructor
+            if not ok and bad is None:
+                bad = (x, up)
+        chk.ob('E2-cache-readers', '%s does not read the filtration cache' % f['name'],
+               '%s:%d' % (H, f['line']), bad is None,
+               '' if bad is None else 'line %s uses filtration_vect_ in `%s`: the cache may be partial (ignorer, custom '
+               'order) or stale (assign_filtration does not drop it), the complex must not depend on it'
+               % (bad[0].get('l'), ir.show(bad[1])[:80] if bad[1] is not None else '?'),
+               key='E2|%s|cache-reader' % f['name'])
+    chk.expect_count('E2-cache-readers', 'functions mentioning the cache', n, 8)
+
+
+def run_prune_rules(chk, F):
+    """pruning at a value keeps exactly the sublevel complex: (a) the threshold handed to the recursive worker is a
+    value owned by the call (a local copy or a by-value parameter) - a reference parameter may designate the value
+    of a node, and nodes are moved while pruning; (b) the recursion visits every kept subtree: no recursive call sits
+    behind a short-circuit on the accumulated result (`modified || rec(...)` skips the subtree once anything was
+    removed)."""
+    fs = F.funcs('prune_above_filtration', unit='st_tbb')
+    if len(fs) != 1:
+        raise AnalysisBroken('C03: prune_above_filtration not found')
+    f = fs[0]
+    calls = [x for x in ir.walk(f['body']) if ir.is_call(x) and ir.call_name(x) == 'rec_prune_above_filtration']
+    if len(calls) != 1:
+        raise AnalysisBroken('C03: call of rec_prune_above_filtration not found')
+    arg = ir.skipcasts(ir.call_args(calls[0])[1])
+    ref_params = {p_['n'] for p_ in f['params'] if '&' in (p_.get('t') or '')}
+    ok = not (arg is not None and arg.get('k') == 'DeclRefExpr' and arg.get('n') in ref_params)
+    chk.ob('E10-threshold-owned', 'prune_above_filtration prunes with a threshold it owns', '%s:%s' % (H, calls[0].get('l')),
+           ok, '' if ok else 'the reference parameter `%s` is handed to the recursion: prune_above_filtration('
+           'filtration(sh)) passes a reference into a node, and std::remove_if moves nodes while pruning - deeper '
+           'levels are pruned with another simplex\'s value' % arg.get('n'), key='E10|prune_above_filtration|threshold')
+    n = 0
+    for name in ('rec_prune_above_filtration', 'rec_prune_above_dimension'):
+        for g in F.funcs(name, unit='st_tbb'):
+            n += 1
+            flags = set()
+            for x in ir.walk(g['body']):
+                if x.get('k') == 'VarDecl' and 'bool' in (x.get('t') or ''):
+                    flags.add(x['n'])
+            par = ir.parents(g['body'])
+            bad = None
+            for x in ir.walk(g['body']):
+                if not (ir.is_call(x) and ir.call_name(x) == name):
+                    continue
+                cur = x
+                while id(cur) in par:
+                    up = par[id(cur)]
+                    if up.get('k') == 'BinaryOperator' and up.get('op') in ('||', '&&') and cur is not up['c'][0]:
+                        left = [y.get('n') for y in ir.walk(up['c'][0]) if y.get('k') == 'DeclRefExpr']
+                        if any(l in flags for l in left) and bad is None:
+                            bad = up
+                    cur = up
+            chk.ob('E2-recursion-complete', '%s recurses into every kept subtree (no short-circuit on the accumulated '
+                   'result)' % name, '%s:%d' % (H, g['line']), bad is None,
+                   '' if bad is None else '`%s`: once the flag is true the recursive call is not evaluated, the '
+                   'remaining subtrees are not pruned' % ir.show(bad)[:120], key='E2|%s|recursion-complete' % name)
+    chk.expect_count('E2-recursion-complete', 'recursive pruning workers', n, 2)
+
+
+def run_cone_label(chk, F):
+    """the cone point of the extended filtration is a *new, usable* vertex: its label is computed (largest label + 1),
+    so before it is inserted it is compared with the reserved null_vertex() (every other entry point that inserts a
+    label checks it against null_vertex(); labels below null_vertex() are legal)."""
+    fs = F.funcs('extend_filtration', unit='st_tbb')
+    if len(fs) != 1:
+        raise AnalysisBroken('C03: extend_filtration not found')
+    f = fs[0]
+    ins = [x for x in ir.walk(f['body']) if ir.is_call(x) and ir.call_name(x) == 'insert_simplex_raw']
+    if not ins:
+        raise AnalysisBroken('C03: extend_filtration: insertion of the cone point not found')
+    names = [y.get('n') for y in ir.walk(ins[0]) if y.get('k') == 'DeclRefExpr' and y.get('dk') == 'Var']
+    if len(set(names)) != 1:
+        raise AnalysisBroken('C03: extend_filtration: the cone label is not a single local')
+    cone = names[0]
+    order = list(ir.walk(f['body']))
+    pos = order.index(ins[0])
+    ok = False
+    for x in order[:pos]:
+        if x.get('k') in ('BinaryOperator', 'CXXOperatorCallExpr') and x.get('op') in ('==', '!='):
+            t = ir.show(x)
+            if cone in t and 'null_vertex' in t:
+                ok = True
+    chk.ob('E2g-cone-label', 'extend_filtration compares the computed cone label with null_vertex() before inserting it',
+           '%s:%s' % (H, ins[0].get('l')), ok, '' if ok else '`%s` is the largest label + 1 and is inserted without a '
+           'test against null_vertex(): a complex whose largest label is null_vertex() - 1 gets the reserved dummy '
+           'label as cone point' % cone, key='E2g|extend_filtration|cone-label')
+
+
 def run_cache_protocol(chk, F):
     """The cache protocol: an empty filtration_vect_ means "not computed" and nothing else does - a cache built with
     an ignorer or a custom comparator is legitimately smaller than / ordered differently from the default one. The
@@ -372,6 +504,9 @@ def run(tier, replay=None):
     run_traversal(chk, F)
     run_cache_protocol(chk, F)
     run_lifetimes(chk, F)
+    run_cache_readers(chk, F)
+    run_prune_rules(chk, F)
+    run_cone_label(chk, F)
     chk.assumptions += ['filtration values obey trichotomy (no NaN), as the property states', 'clang 14 parser',
                         'tables/c03.json lists the mutators the library documents as self-invalidating']
     return chk
